@@ -2457,6 +2457,7 @@ static int cfg_addlist_internal(cfg_opt_t *opt, unsigned int nvalues, va_list ap
 DLLIMPORT int cfg_setlist(cfg_t *cfg, const char *name, unsigned int nvalues, ...)
 {
 	va_list ap;
+	cfg_opt_t old;
 	cfg_opt_t *opt = cfg_getopt(cfg, name);
 
 	if (!opt || !is_set(CFGF_LIST, opt->flags)) {
@@ -2464,11 +2465,19 @@ DLLIMPORT int cfg_setlist(cfg_t *cfg, const char *name, unsigned int nvalues, ..
 		return CFG_FAIL;
 	}
 
-	cfg_free_value(opt);
+	/*
+	 * The new values may be strings that the getters of this very
+	 * option handed out: release the old values after the copy.
+	 */
+	old = *opt;
+	opt->values = NULL;
+	opt->nvalues = 0;
 	opt->flags |= CFGF_MODIFIED; /* also when the new list is empty */
 	va_start(ap, nvalues);
 	cfg_addlist_internal(opt, nvalues, ap);
 	va_end(ap);
+	cfg_free_value(&old);
+	opt->comment = old.comment;
 
 	return CFG_SUCCESS;
 }
